@@ -99,3 +99,20 @@ impl CounterCollection {
         info.count_input = Some(Box::new(move |_p: *const ()| k));
     }
 }
+
+// @cell props=C05 tier=quick kind=core timeout=900 mem=10 cls=N
+// @desc set_input_counter + get_input_count: the registered closure is applied to the given input, only for its own kind
+#[kani::proof]
+#[kani::unwind(6)]
+fn c05_input_counter_roundtrip() {
+    let mut coll = CounterSet::default().to_collection();
+    coll.set_input_counter(|x: &u16| ItemsCount::new(*x as u64));
+    let v: u16 = kani::any();
+    let got = unsafe { coll.get_input_count(KnownCounterKind::Items, &v) };
+    assert_eq!(got, Some(v as u64));
+    assert!(unsafe { coll.get_input_count(KnownCounterKind::Bytes, &v) }.is_none());
+    assert!(coll.uses_input_counts(KnownCounterKind::Items));
+    assert!(!coll.uses_input_counts(KnownCounterKind::Chars));
+    kani::cover!(v == 7);
+    std::mem::forget(coll);
+}
